@@ -321,16 +321,19 @@ func c12Concurrent(c *core.Case) {
 				return
 			default:
 			}
-			st := mu.State()
-			ex := 0
+			// Each State() call is atomic on its own, but reading the guards one
+			// after the other is not a snapshot (a hand-over between two reads
+			// shows two exclusive guards), so no verdict is drawn across guards:
+			// mutual exclusion is decided by the linearizability check of the
+			// recorded history. A single guard must never report a state outside
+			// the three defined ones.
+			_ = mu.State()
 			for i := range guards {
-				if guards[i].State() == litefs.RWMutexStateExclusive {
-					ex++
+				switch guards[i].State() {
+				case litefs.RWMutexStateUnlocked, litefs.RWMutexStateShared, litefs.RWMutexStateExclusive:
+				default:
+					obsBad.Store(fmt.Sprintf("guard %d reports undefined state %d", i, guards[i].State()))
 				}
-			}
-			_ = st
-			if ex > 1 {
-				obsBad.Store(fmt.Sprintf("%d exclusive holders observed at once", ex))
 			}
 			runtime.Gosched()
 		}
@@ -356,7 +359,7 @@ func c12Concurrent(c *core.Case) {
 		return
 	}
 	if b := obsBad.Load(); b != nil {
-		c.Violate("C12/observer-saw-two-exclusive", b.(string), nil)
+		c.Violate("C12/observer-saw-undefined-state", b.(string), nil)
 		return
 	}
 	var all []porcupine.Operation
